@@ -110,7 +110,7 @@ def main(pid):
             ("exh", dict(universe="types", typedepth=1, target=2, members=1, sample=4000 if thorough else 250)),
             ("exh", dict(universe="inst", target=40, maxitems=2, sample=None if thorough else 150))]
     allcases = []
-    plan += [("scenario", dict(family="members")), ("scenario", dict(family="serializable"))]
+    plan += [("scenario", dict(family="members")), ("scenario", dict(family="serializable")), ("scenario", dict(family="enums"))]
     for kind, kw in plan:
         if kind == "sim":
             cs, r = cases.simulate(seed=rep.seed, **kw)
